@@ -294,9 +294,9 @@ func c10RunBash(p c10Prog, src string, files map[string]string, confirmKill bool
 	}
 	// the corpus programs need 20-90 ms CPU; 2 s of CPU time is a > 20x margin and load-independent. A renaming that
 	// makes a loop endless (a counter spelled like a read-only shell variable) costs that much each time
-	got := drive.RunBash(tr.Script, drive.RunOpts{CPUSecs: 2, Backstop: 90 * time.Second, OutputCap: 64 << 10, Stdin: p.stdin, Files: p.box})
+	got := drive.RunBash(tr.Script, drive.RunOpts{CPUSecs: 2, Backstop: 90 * time.Second, OutputCap: 64 << 10, Stdin: p.stdin, Files: p.box, Env: c10InheritedEnv})
 	if got.Runaway != "" && confirmKill {
-		got = drive.RunBash(tr.Script, drive.RunOpts{CPUSecs: 4, Backstop: 120 * time.Second, OutputCap: 64 << 10, Stdin: p.stdin, Files: p.box})
+		got = drive.RunBash(tr.Script, drive.RunOpts{CPUSecs: 4, Backstop: 120 * time.Second, OutputCap: 64 << 10, Stdin: p.stdin, Files: p.box, Env: c10InheritedEnv})
 	}
 	if got.Runaway != "" {
 		return c10Obs{class: "runaway", stdout: ""}
@@ -758,6 +758,7 @@ func C10() int {
 	if capped {
 		r.Set("cap_hit", "internal deadline")
 	}
+	r.Assumef("every Bash run inherits an environment of ordinary session variables with canary values (HOME, USER, LOGNAME, SHELL, EDITOR, VISUAL, PAGER, MAIL, HOSTNAME, DISPLAY, TMPDIR, XDG_RUNTIME_DIR, SSH_AUTH_SOCK, TERM, COLUMNS, LINES); these names are rename targets like every shell variable")
 	r.Set("rule", "corpus of programs that together use every name-producing mechanism (globals, locals, parameters, functions, loop and range variables, slices incl. growth/copy, string subscripts, multi-return, nested calls, simultaneous assignment) and - checked by a self-test of the corpus on every run - every builtin (len print input copy read write exists itoa panic; input() gets standard input, the file builtins a working directory) and every statement form of the README (var forms, := and = incl. multi-value, op-assignment, ++/--, if / else if / else, switch with tag / without tag / `switch true`, the four for forms, break, continue, return, call statement, program call plain / piped / captured, slice literal / element write / element read, substring) both at the top level and inside a function; plus multi-file programs whose renamed identifiers live in an IMPORTED file that is reached twice (diamond; one file under two aliases) and whose top-level state changes between the two inclusions (roles: private global, private function, its parameter and local, public global, public function)"+
 		" x every single identifier role renamed to every member of the name universe: names harvested on this run from the scripts the current tree emits (every assignment target, function name, label, local and evaluated variable that is not a user identifier, and every variable in the variable table of the finished default-named Bash run - names composed at run time: for a program of the base group of 8 the union over the group, for every other program its own two scripts) and names shaped like them; shell/cmd vocabulary; the COMPLETE list of Bash's shell variables (bash 5.2 manual, section Shell Variables, plus 5.3's additions and whatever `compgen -v` of the installed shell reports) on both targets; cmd.exe's dynamic and standard environment variables (Batch target only); case twins of the program's other identifiers; joined identifiers; the role's own name underscore-led / doubly underscore-led / underscore-tailed / with an inner underscore / first letter in the other case / upper case. Quick-tier bound (thorough has none): the shell variables added to the lists in round 7 are offered to every role of the base group (every role kind meets every shell variable there) and to the top-level variables of the added programs (facility x shell variable). A private top-level name of an imported file is only offered spellings that do not start with an upper-case letter and a public one only those that do (export is the language's rule); thorough adds pairs of roles. Oracle (metamorphic): the renamed program fails to transpile with an error, or its observation (bash: real run - stdout, status, stderr; batch: cmd.exe model) equals the default-named program's. Distinct by source text.")
 	r.Assumef("the default-named corpus programs are validated by this check only for clean execution and bash/batch agreement; their meaning is covered by C01-C05")
